@@ -748,7 +748,8 @@ def _parse_scsv_bool(x):
 
 
 def _parse_scsv_cell(func, data, missingstr=None, fillval=None):
-    if data.strip() == missingstr:
+    # Also compare the unstripped data, the missing data marker may contain whitespace.
+    if data == missingstr or data.strip() == missingstr:
         if fillval == "NaN":
             return func(np.nan)
         return func(fillval)
